@@ -298,7 +298,9 @@ Lemma cancel_winv w c : winv w -> winv (fst (do_cancel w c)).
 Proof.
   intros H. unfold do_cancel. destruct (get_conn w c) as [k|] eqn:Hc; [|exact H].
   destruct (k_fut k); try exact H. cbn [fst].
-  eapply winv_frame; [|exact H]. apply frame_upd_conn, benign_kill. now right.
+  eapply winv_frame; [|exact H]. eapply frame_trans; [apply frame_upd_conn, benign_kill; now right|].
+  unfold send_abandon_rst. destruct (S.lo (k_sys k)); [apply frame_loop_send|].
+  destruct (k_dhost k); [apply frame_link_send|apply frame_refl].
 Qed.
 
 Lemma stream_op_winv w h sid e : winv w -> winv (fst (stream_op w h sid e)).
@@ -701,12 +703,25 @@ Proof.
   intros h. unfold client_entry, has_sk. cbn. apply andb_false_r.
 Qed.
 
+Lemma conns_link_send_seg w s d c sd p :
+  w_conns (link_send w s d {| m_cid := c; m_body := WSeg sd p |}) = w_conns w.
+Proof.
+  unfold link_send. destruct (find _ _); [|reflexivity]. destruct (cut_from _ _); reflexivity.
+Qed.
+
+Lemma conns_send_abandon_rst w c k : w_conns (send_abandon_rst w c k) = w_conns w.
+Proof.
+  unfold send_abandon_rst. destruct (S.lo (k_sys k)); [reflexivity|].
+  destruct (k_dhost k); [apply conns_link_send_seg|reflexivity].
+Qed.
+
 Lemma cancel_no_entry w c k :
   get_conn w c = Some k -> k_fut k = FutPending ->
   exists k', get_conn (fst (do_cancel w c)) c = Some k' /\ k_fut k' = FutCancelled /\
              forall h, client_entry h k' = false.
 Proof.
-  intros Hc Hf. unfold do_cancel. rewrite Hc, Hf. cbn [fst]. unfold get_conn, upd_conn in *. cbn.
+  intros Hc Hf. unfold do_cancel. rewrite Hc, Hf. cbn [fst]. unfold get_conn in *.
+  rewrite conns_send_abandon_rst. unfold upd_conn. cbn.
   erewrite nth_upd_nth_same by exact Hc. eexists. split; [reflexivity|]. split; [reflexivity|].
   intros h. unfold client_entry, has_sk. cbn. apply andb_false_r.
 Qed.
@@ -818,4 +833,38 @@ Proof.
                                     k_dhost := Some d; k_syn := SynFlight; k_fut := FutPending; k_srv := None;
                                     k_sys := sys_connecting (w_cap w) false |} st F) as G end.
   cbn [w_conns set_hosts upd_host w_cap] in G. rewrite G. reflexivity.
+Qed.
+
+(* ---- the RST of an abandoned connect removes the acceptor's entry (fix 48e101e) ------------------ *)
+
+Lemma conns_flush_fold (k : conn) c (out : list (S.side * S.pkt)) : forall w1,
+  w_conns (fold_left (fun (w' : world) (sp : S.side * S.pkt) =>
+     let m := {| m_cid := c; m_body := WSeg (fst sp) (snd sp) |} in
+     if S.lo (k_sys k) then loop_send w' (k_host k) m
+     else match msg_src w' m, msg_dst w' m with
+          | Some s, Some d => link_send w' s d m
+          | _, _ => w'
+          end) out w1) = w_conns w1.
+Proof.
+  induction out as [|sp out IH]; intros w1; cbn [fold_left]; [reflexivity|]. rewrite IH.
+  destruct (S.lo (k_sys k)); [reflexivity|].
+  destruct (msg_src _ _); [|reflexivity]. destruct (msg_dst _ _); [|reflexivity]. apply conns_link_send_seg.
+Qed.
+
+Lemma abandon_rst_resets_acceptor w d c k :
+  get_conn w c = Some k ->
+  exists k', get_conn (fst (deliver_msg w d {| m_cid := c; m_body := WSeg S.A S.PRst |})) c = Some k' /\
+             forall h, server_entry h k' = false.
+Proof.
+  intros Hc. unfold deliver_msg. cbn [m_body m_cid fst]. unfold flush.
+  set (f := fun k0 : conn => set_sys k0 (S.deliver1 (k_sys k0) (S.other S.A) S.PRst)).
+  assert (H1 : get_conn (upd_conn w c f) c = Some (f k)).
+  { unfold get_conn, upd_conn in *. cbn. now apply nth_upd_nth_same. }
+  rewrite H1. unfold get_conn. rewrite conns_flush_fold. unfold upd_conn. cbn [w_conns set_conns].
+  unfold get_conn in H1. erewrite nth_upd_nth_same by exact H1.
+  eexists. split; [reflexivity|]. intros h. unfold server_entry. cbn [k_srv set_sys f].
+  destruct (k_srv k) as [[[d0 l] p]|]; [|reflexivity].
+  assert (E : has_sk (S.set_wire (S.deliver1 (k_sys k) S.B S.PRst) []) S.B = false).
+  { unfold has_sk, S.deliver1, S.recv_ep. cbn. destruct (S.lo (k_sys k)); reflexivity. }
+  unfold f. cbn [k_sys set_sys S.other]. rewrite E. apply andb_false_r.
 Qed.
